@@ -105,6 +105,27 @@ def run_case(case: dict) -> Result:
             return res.bad(f'hash:{type(a).RULE}', f'equal tokens {a!r} have different hashes')
         if not (a == b):
             return res.bad(f'token-unequal:{type(a).RULE}', f'the same token parsed twice is unequal: {a!r} {b!r}')
+    # a token that was hashed, then edited, is equal to a freshly made token of its new text - and hashes like it
+    scratch = common.parse_case(case, claim=claim)
+    for t in O.store_tokens(scratch.token_store):
+        if not hasattr(type(t), 'value') or type(t).__name__ in ('Indent',):
+            continue
+        hash(t)
+        old_text = t.raw_text
+        try:
+            if isinstance(t.value, str):
+                t.value = t.value + 'x'
+            else:
+                t.raw_text = t.raw_text   # the same text: still equal to what it was
+        except Exception:  # noqa: BLE001
+            continue
+        try:
+            fresh = type(t).from_raw_text(t.raw_text)
+        except Exception:  # noqa: BLE001
+            continue
+        classes.add('hash-after-edit')
+        if fresh == t and hash(fresh) != hash(t):
+            return res.bad(f'hash-after-edit:{type(t).RULE}', f'a {type(t).__name__} hashed as {old_text!r}, then edited to {t.raw_text!r}, equals a fresh token of that text but hashes differently')
     cp = copy.deepcopy(root)
     classes.add('pair:copy')
     s = sym(root, cp)
